@@ -85,6 +85,11 @@ func C14(r *ev.Report) {
 
 func init() {
 	Replayers["C14"] = func(c Case) (bool, string) {
+		switch c["op"] {
+		case "Add", "Subtract", "Multiply", "Square", "Invert", "Pow", "SetUInt64", "Zero", "One", "MinusOne", "Add(nil)", "Subtract(nil)", "Multiply(nil)", "Set(nil)", "NewScalar":
+			return Replayers["C06"](c)
+		}
+
 		if c["op"] == "persist" {
 			return Replayers["C10"](c)
 		}
